@@ -219,6 +219,8 @@ func c09DrawAction(t *rapid.T, call *c09Call, unit string) c09Action {
 	switch k {
 	case c09ActOK:
 		act.ansKind = rapid.IntRange(0, c09AnsKinds-1).Draw(t, "answerShape")
+	case c09ActTrunc:
+		act.partial = rapid.IntRange(0, 2).Draw(t, "partialRecords")
 	case c09ActForeign:
 		act.ansKind = rapid.SampledFrom([]int{c09AnsAddr, c09AnsAddr, c09AnsTTL0, c09AnsCname}).Draw(t, "answerShape")
 		act.foreign = c09OtherQuestion(t, call.req.Question[0])
@@ -233,6 +235,8 @@ func c09ActString(a c09Action) string {
 		s += "(" + c09AnsKindNames[a.ansKind] + ")"
 	case c09ActForeign:
 		s += fmt.Sprintf("(%s/%d,%s)", a.foreign.Name, a.foreign.Qtype, c09AnsKindNames[a.ansKind])
+	case c09ActTrunc:
+		s += fmt.Sprintf("(%d partial records)", a.partial)
 	}
 	return s
 }
@@ -344,6 +348,9 @@ func c09ControllerCase(t *rapid.T) {
 				}
 			}
 			return
+		}
+		if mode == "tcp+udp" && call.fwd.proto == consts.L4ProtoStr_UDP && failedStep {
+			fail("the UDP attempt for %s ended with %s but no TCP retry was started for this tcp+udp upstream", key, c09ActString(act))
 		}
 		// resolution over: every waiter must have its result now, and the same one.
 		nOK, nErr := 0, 0
@@ -458,16 +465,19 @@ func c09ControllerCase(t *rapid.T) {
 		if err := c09CheckClientReplies(cl); err != nil {
 			fail("%v", err)
 		}
+		var sharedWith *c09Client
 		cl.w.mu.Lock()
 		nmsg := len(cl.w.msgs)
 		for _, p := range cl.w.ptrs {
 			if o := ptrOwner[p]; o != nil && o != cl && o.id != cl.id {
-				cl.w.mu.Unlock()
-				fail("%s and %s were handed the same *Msg object (no per-waiter copy): concurrent ID patching races", o, cl)
+				sharedWith = o
 			}
 			ptrOwner[p] = cl
 		}
 		cl.w.mu.Unlock()
+		if sharedWith != nil {
+			fail("%s and %s were handed the same *Msg object (no per-waiter copy): concurrent ID patching races", sharedWith, cl)
+		}
 		if cerr == nil && nmsg == 0 {
 			fail("%s: handler returned success without writing a reply", cl)
 		}
@@ -499,9 +509,18 @@ func c09ControllerCase(t *rapid.T) {
 		}
 	}
 	// cache contents: under each key only answers to that key's name/type
+	type c09CacheItem struct {
+		key   string
+		entry *DnsCache
+	}
+	var cached []c09CacheItem
 	env.c.dnsCache.Range(func(k, v any) bool {
-		key := k.(string)
-		entry := v.(*DnsCache)
+		cached = append(cached, c09CacheItem{k.(string), v.(*DnsCache)})
+		return true
+	})
+	sort.Slice(cached, func(i, j int) bool { return cached[i].key < cached[j].key })
+	for _, it := range cached {
+		key, entry := it.key, it.entry
 		base := dnsCacheBaseKey(key)
 		dot := strings.LastIndex(base, ".")
 		qt, convErr := strconv.Atoi(base[dot+1:])
@@ -524,8 +543,7 @@ func c09ControllerCase(t *rapid.T) {
 			}
 		}
 		classes["cached"] = true
-		return true
-	})
+	}
 
 	nt := ""
 	if idCollision || faulty || coalesced {
